@@ -1,7 +1,11 @@
 import Vet.Props.C12Prune
 import Vet.Props.Resolve
+import Vet.Props.Commands
 #print axioms Vet.search_minimax
 #print axioms Vet.C12_fully_only_if
 #print axioms Vet.C12_fully_if
 #print axioms Vet.C12_classes_partition
 #print axioms Vet.C12_prune_exemption_needed_partial
+#print axioms Vet.C12_command_exemption_needed_partial
+#print axioms Vet.Cmd.prunesExemptionsOf_table
+#print axioms Vet.Cmd_certify_example
